@@ -1708,8 +1708,9 @@ class HTMLDependency(MetadataNode):
 
         return Tag(
             "script",
-            # "</script>" in a script tag must be escaped
-            json.dumps(res, indent=indent).replace("</script>", "<\\/script>"),
+            # Any end tag like "</script" (in any letter case, possibly followed by
+            # whitespace) in a script tag must be escaped; "\\/" is a valid JSON escape
+            json.dumps(res, indent=indent).replace("</", "<\\/"),
             type="application/json",
             data_html_dependency=True,
         )
